@@ -73,8 +73,12 @@ def generate(rng, tier):
             for d in ds:
                 cur.update(d.get("set_before") or {})
                 SL.finish_dataset(d, cur)
+        if i % 4 == 0 and i > 0:   # the datasets arrive through read_dataset (a text file each, default or named column order)
+            for j, d in enumerate(ds):
+                if d.get("reuse_info_of") is None and not d.get("rejected_before") and all(v == v and abs(v) != float("inf") for v in d["y"]):
+                    d["via_file"] = ["default", "cols"][(i // 4 + j) % 2]
         cases.append({"cfg": cfg, "datasets": ds,
-                      "desc": {"n_datasets": k, "edge_on_shifted_point": i % 3 == 1, "attrs_changed_between": any(d.get("set_before") for d in ds),
+                      "desc": {"n_datasets": k, "edge_on_shifted_point": i % 3 == 1, "through_read_dataset": any(d.get("via_file") for d in ds), "attrs_changed_between": any(d.get("set_before") for d in ds),
                                "global_qmin": cfg["Qmin"] is not None, "global_qmax": cfg["Qmax"] is not None,
                                "any_xoffset": any(d["X"] is not None for d in ds), "window_reassigned": "win_ctor" in cfg,
                                "manipulations_by_call_keyword": any(d.get("by_call") for d in ds), "kinds": "".join(str(d["kind"]) for d in ds)}})
